@@ -4,6 +4,7 @@
 # EasyFEA is distributed under the terms of the GNU General Public License v3, see LICENSE.txt and CREDITS.md for more information.
 
 from abc import ABC, abstractmethod
+import copy
 import pickle
 from datetime import datetime
 from typing import Union, Optional, Any
@@ -451,7 +452,8 @@ class _Simu(_IObserver, _params.Updatable, ABC):
         entry = self.__list_results[iter]
         if isinstance(entry, str):
             return self.__Restore_iter_from_local(self.__Read_iter_parts(entry))
-        return entry.copy()
+        # arrays included, like an entry read from disk: a write in what is returned must not reach the history
+        return copy.deepcopy(entry)
 
     @abstractmethod
     def Set_Iter(self, iter: int = -1, resetAll=False) -> dict:
